@@ -33,9 +33,10 @@ type H struct {
 	impl    []string
 	classes map[string]int
 	tier    string
-	budget  int // scale factor: 1 quick, N thorough
-	hxCount int // round-robin over the construction modes of highXSig
-	hxLimb  int // … and over (limb, style) within its limb-perturbation mode
+	budget  int             // scale factor: 1 quick, N thorough
+	hxCount int             // round-robin over the construction modes of highXSig
+	hxLimb  int             // … and over (limb, style) within its limb-perturbation mode
+	once    map[string]bool // one-time generator classes already emitted
 }
 
 func (h *H) emit(class, op, impl string) {
@@ -154,7 +155,7 @@ func main() {
 	prop, tier := os.Args[1], os.Args[2]
 	seed, _ := strconv.ParseInt(os.Args[3], 10, 64)
 	out := os.Args[4]
-	h := &H{rng: rand.New(rand.NewSource(seed)), classes: map[string]int{}, tier: tier, budget: 1}
+	h := &H{rng: rand.New(rand.NewSource(seed)), classes: map[string]int{}, once: map[string]bool{}, tier: tier, budget: 1}
 	if tier == "thorough" {
 		h.budget = 20
 	}
